@@ -18,6 +18,7 @@ Sub-properties
   hadrons     read_meson_hd5 / read_hd5 on Hadrons hdf5 meson files
 """
 import math
+import os
 
 import numpy as np
 from hypothesis import strategies as st
@@ -232,9 +233,40 @@ def selection_labels(call):
     return [k for k in ('files', 'afiles', 'names', 'ens_name', 'r_start', 'r_stop', 'r_step', 'idl', 'replica') if call.get(k) is not None]
 
 
+def with_prime(case):
+    """adds the 'prime' flag: before the files of the case are written, the same paths hold another data set that is read"""
+    @st.composite
+    def f(draw, tier):
+        spec = draw(case(tier))
+        spec['prime'] = draw(st.sampled_from([False, False, False, True]))
+        return spec
+    return f
+
+
+def prime(mod, d, fs, call, run, spec):
+    """State between calls: the directory first holds the same file set with other numbers (seed + 1), which is read with the
+    same call; then every file is removed and the real set written.  A reader must return what the files hold *now*."""
+    if not spec.get('prime'):
+        return
+    import copy
+    decoy = copy.deepcopy(fs)
+    decoy['seed'] = (int(fs['seed']) + 1) % (2 ** 31 - 1)
+    mod.build(decoy).write(d)
+    try:
+        run(d, decoy, call)
+    except Exception:
+        pass
+    for root, dirs, files in os.walk(d, topdown=False):
+        for f in files:
+            os.unlink(os.path.join(root, f))
+        for x in dirs:
+            os.rmdir(os.path.join(root, x))
+
+
 def rwms_oracle(spec):
     fs, call = spec['fs'], spec['call']
     with common.tempdir() as d:
+        prime(RW, d, fs, call, RW.run, spec)
         RW.build(fs).write(d)
         got = RW.run(d, fs, call)
     exp = RW.expected(fs, call)
@@ -318,6 +350,7 @@ def flow_labels(fs, call, spec):
 def flowE_oracle(spec):
     fs, call = spec['fs'], spec['call']
     with common.tempdir() as d:
+        prime(FL, d, fs, call, FL.run, spec)
         FL.build(fs).write(d)
         got, keys = FL.run(d, fs, call)
     exp = FL.expected(fs, call)
@@ -378,6 +411,7 @@ def t0w0_oracle(spec):
     except Exception as e:
         raise Skip('reference fit_t0 failed: ' + type(e).__name__)
     with common.tempdir() as d:
+        prime(FL, d, fs, call, FL.run, spec)
         FL.build(fs).write(d)
         got, _ = FL.run(d, fs, call)
     o = got[call['what']]
@@ -417,6 +451,7 @@ def flowobs_oracle(spec):
         if call.get('integer_charge') and FL.near_half_integer(fs, call):
             raise Skip('charge within 1e-9 of a half integer')
     with common.tempdir() as d:
+        prime(FL, d, fs, call, FL.run, spec)
         FL.build(fs).write(d)
         got, _ = FL.run(d, fs, call)
     exp = FL.expected(fs, call)
@@ -525,6 +560,7 @@ def ms5_case(draw, tier):
 def ms5_oracle(spec):
     fs, call = spec['fs'], spec['call']
     with common.tempdir() as d:
+        prime(M5, d, fs, call, M5.run, spec)
         M5.build(fs).write(d)
         got = M5.run(d, fs, call)
     exp = M5.expected(fs, call)
@@ -644,6 +680,7 @@ def sfcf_labels(fs, call, spec):
 def sfcf_oracle(spec):
     fs, call = spec['fs'], spec['call']
     with common.tempdir() as d:
+        prime(SF, d, fs, call, SF.run, spec)
         SF.build(fs).write(d)
         got = SF.run(d, fs, call)
     exp = SF.expected_one(fs, call, call['name'], call['quarks'], call['noffset'], call['wf'], call['wf2'])
@@ -688,6 +725,7 @@ def sfcf_multi_case(draw, tier):
 def sfcf_multi_oracle(spec):
     fs, call = spec['fs'], spec['call']
     with common.tempdir() as d:
+        prime(SF, d, fs, call, SF.run_multi, spec)
         SF.build(fs).write(d)
         got = SF.run_multi(d, fs, call)
     for key, res in got.items():
@@ -749,6 +787,7 @@ def hadrons_oracle(spec):
                 return {'nt': True, 'cls': ['sel:idl_with_missing_configurations:' + type(e).__name__]}
         raise Violation('hadrons reader served a selection that names configurations %r for which no file exists' % (call['missing'],))
     with common.tempdir() as d:
+        prime(HD, d, fs, call, HD.run, spec)
         HD.build(fs).write(d)
         got = HD.run(d, fs, call)
     exp = HD.expected(fs, call)
@@ -788,22 +827,22 @@ def fidelity_oracle(spec):
 SUBS = [
     Sub('fidelity', None, fidelity_oracle, {'quick': 1, 'thorough': 1}, {'quick': 1, 'thorough': 1}, kind='enum', enum=fidelity_enum,
         doc='writers reproduce every sample file of tests/data byte for byte'),
-    Sub('rwms', rwms_case, rwms_oracle, {'quick': 400, 'thorough': 5000}, {'quick': 3, 'thorough': 4},
+    Sub('rwms', with_prime(rwms_case), rwms_oracle, {'quick': 400, 'thorough': 5000}, {'quick': 3, 'thorough': 4},
         doc='read_rwms 1.4 / 1.6 / 2.0'),
-    Sub('flowE', flowE_case, flowE_oracle, {'quick': 400, 'thorough': 5000}, {'quick': 2, 'thorough': 3},
+    Sub('flowE', with_prime(flowE_case), flowE_oracle, {'quick': 400, 'thorough': 5000}, {'quick': 2, 'thorough': 3},
         doc='_extract_flowed_energy_density (ms.dat)'),
-    Sub('t0w0', t0w0_case, t0w0_oracle, {'quick': 150, 'thorough': 2000}, {'quick': 1, 'thorough': 2},
+    Sub('t0w0', with_prime(t0w0_case), t0w0_oracle, {'quick': 150, 'thorough': 2000}, {'quick': 1, 'thorough': 2},
         doc='extract_t0 / extract_w0 vs fit_t0 on the expected flow data', max_skip_frac=0.3),
-    Sub('qtop_ms', qtop_ms_case, flowobs_oracle, {'quick': 400, 'thorough': 5000}, {'quick': 1, 'thorough': 2},
+    Sub('qtop_ms', with_prime(qtop_ms_case), flowobs_oracle, {'quick': 400, 'thorough': 5000}, {'quick': 1, 'thorough': 2},
         doc='read_qtop openQCD (ms.dat)'),
-    Sub('gfms', gfms_case, flowobs_oracle, {'quick': 400, 'thorough': 5000}, {'quick': 2, 'thorough': 3},
+    Sub('gfms', with_prime(gfms_case), flowobs_oracle, {'quick': 400, 'thorough': 5000}, {'quick': 2, 'thorough': 3},
         doc='read_qtop sfqcd / read_gf_coupling (gfms.dat)'),
-    Sub('ms5', ms5_case, ms5_oracle, {'quick': 400, 'thorough': 5000}, {'quick': 2, 'thorough': 3},
+    Sub('ms5', with_prime(ms5_case), ms5_oracle, {'quick': 400, 'thorough': 5000}, {'quick': 2, 'thorough': 3},
         doc='read_ms5_xsf'),
-    Sub('sfcf', sfcf_case, sfcf_oracle, {'quick': 300, 'thorough': 4000}, {'quick': 3, 'thorough': 4},
+    Sub('sfcf', with_prime(sfcf_case), sfcf_oracle, {'quick': 300, 'thorough': 4000}, {'quick': 3, 'thorough': 4},
         doc='read_sfcf separate / compact / appended'),
-    Sub('sfcf_multi', sfcf_multi_case, sfcf_multi_oracle, {'quick': 300, 'thorough': 4000}, {'quick': 1, 'thorough': 2},
+    Sub('sfcf_multi', with_prime(sfcf_multi_case), sfcf_multi_oracle, {'quick': 300, 'thorough': 4000}, {'quick': 1, 'thorough': 2},
         doc='read_sfcf_multi'),
-    Sub('hadrons', hadrons_case, hadrons_oracle, {'quick': 200, 'thorough': 3000}, {'quick': 1, 'thorough': 2},
+    Sub('hadrons', with_prime(hadrons_case), hadrons_oracle, {'quick': 200, 'thorough': 3000}, {'quick': 1, 'thorough': 2},
         doc='read_meson_hd5 / read_hd5'),
 ]
